@@ -3,6 +3,7 @@ package main
 import (
 	"go/token"
 	"go/types"
+	"strings"
 
 	"golang.org/x/tools/go/ssa"
 )
@@ -347,7 +348,7 @@ func init() {
 		Rules: []func(*Ctx){ruleC17a, func(c *Ctx) { rulePurity(c, "C17.b") }, func(c *Ctx) {
 			c.describe("C17.c", "reg: hasOutField and indexOfOutField compare fields by the same identity")
 			ruleIdentity(c, "C17.c")
-		}, ruleC17d, ruleC17e, ruleC17f, ruleC17g},
+		}, ruleC17d, ruleC17e, ruleC17f, ruleC17g, func(c *Ctx) { ruleC17h(c, "C17.h") }},
 	})
 }
 
@@ -483,4 +484,103 @@ func ruleC17g(c *Ctx) {
 		}
 		c.check(rule, "batch deadline is the maximum of the consumers' deadlines", wd.Pos(), okMax, "a consumer's deadline replaces the current one only under deadline.After(current)", "the deadline imposed on the shared scan is not the maximum of the consumers' deadlines: a query with a later deadline is cut off at an earlier one")
 	}
+}
+
+// ruleC17h: every consumer of a shared scan is offered every row, and gets its
+// own error or the scan's — never a neighbour's.
+func ruleC17h(c *Ctx, rule string) {
+	c.describe(rule, "pathstate: (1) in the shared row callback of doProcessIterations every pass of the loop over the remaining iterations calls that iteration's onValue — an iteration is never skipped for a row while it remains in the list (a skipped consumer does not vote 'more', so the shared scan can end while it still wants rows); (2) in the final delivery loop the value sent on an iteration's errCh is that iteration's own err or the scan's result — not a variable carried from one loop pass to the next that took a previous iteration's error")
+	dp := c.need(rule, "(*z.DB).doProcessIterations")
+	if dp == nil {
+		return
+	}
+	// (1)
+	var cb *ssa.Function
+	for _, a := range withHelpers(c.P, dp) {
+		if a == dp {
+			continue
+		}
+		for _, call := range calls(a) {
+			if !call.Common().IsInvoke() && call.Common().StaticCallee() == nil && isFieldLoad(call.Common().Value, "z.iteration.onValue") {
+				cb = a
+			}
+		}
+	}
+	if cb == nil {
+		c.undecided(rule, "shared row callback", dp.Pos(), "no closure/helper calling iteration.onValue found")
+	} else {
+		c.touch(cb)
+		var onv ssa.CallInstruction
+		for _, call := range calls(cb) {
+			if call.Common().StaticCallee() == nil && isFieldLoad(call.Common().Value, "z.iteration.onValue") {
+				onv = call
+			}
+		}
+		l := innermostLoopOuter(cb, onv.Block())
+		if l == nil {
+			c.undecided(rule, "every remaining iteration is offered every row", cb.Pos(), "the onValue call is not inside a loop over the iterations")
+		} else {
+			ok := true
+			badPath := ""
+			for _, s := range l.header.Succs {
+				if !l.body[s] {
+					continue
+				}
+				_, complete := pathsToFrom(l.header, s, l.header, func(p pathAtoms) bool {
+					for _, pb := range p.blocks[:len(p.blocks)-1] {
+						if pb == onv.Block() {
+							return true
+						}
+					}
+					ok = false
+					var bs []string
+					for _, pb := range p.blocks {
+						bs = append(bs, "b"+itoa(pb.Index))
+					}
+					badPath = strings.Join(bs, ">")
+					return false
+				})
+				if !complete && ok {
+					ok = false
+					badPath = "path enumeration incomplete"
+				}
+			}
+			c.check(rule, "every remaining iteration is offered every row", onv.Pos(), ok, "each pass of the loop over the remaining iterations reaches it.onValue", "a pass of the loop over the remaining iterations can skip it.onValue ("+badPath+"): that consumer neither gets the row nor votes to continue, so the shared scan can stop while it still wants rows")
+		}
+	}
+	// (2)
+	n := 0
+	for _, in := range instrs(dp) {
+		snd, ok := in.(*ssa.Send)
+		if !ok || !isFieldLoad(snd.Chan, "z.iteration.errCh") {
+			continue
+		}
+		n++
+		l := innermostLoop(dp, snd.Block())
+		bad := false
+		seen := map[ssa.Value]bool{}
+		var walk func(v ssa.Value)
+		walk = func(v ssa.Value) {
+			if seen[v] {
+				return
+			}
+			seen[v] = true
+			if ph, isPhi := v.(*ssa.Phi); isPhi {
+				if l != nil && ph.Block() == l.header {
+					// a value carried around the delivery loop: must not take an iteration's err
+					for _, e := range ph.Edges {
+						if dependsOn(e, func(x ssa.Value) bool { return isFieldLoad(x, "z.iteration.err") }) {
+							bad = true
+						}
+					}
+				}
+				for _, e := range ph.Edges {
+					walk(e)
+				}
+			}
+		}
+		walk(snd.X)
+		c.check(rule, "an iteration receives its own error or the scan's", snd.Pos(), !bad, "the value sent is it.err of this iteration or the scan result", "the error delivered to an iteration comes from a variable that an earlier iteration's error was stored into: one query's failure (its deadline, its callback) is reported to the queries that arrived after it in the group")
+	}
+	c.floor(rule, "sends on iteration.errCh", n, 1)
 }
